@@ -26,6 +26,8 @@ enum Op {
     /// Consumer c reads at most n bytes of notifications.
     CRead { c: u16, n: usize },
     CDrop { c: u16 },
+    /// Consumer c stops listening (drops its notification reader) but keeps writing commands.
+    CDropReader { c: u16 },
     /// The remote lane reads at most n bytes of what the runtime wrote and answers complete frames.
     RRead { n: usize },
     /// The remote reads exactly k further whole frames (the runtime is polled while it does so) and
@@ -41,6 +43,10 @@ enum Op {
     RUnlink,
     /// The connection to the remote goes away.
     RClose,
+    /// Only the outgoing half of the connection fails (the remote's reader of the runtime's output is dropped).
+    RCloseReader,
+    /// Only the incoming half fails (the remote's writer is dropped).
+    RCloseWriter,
     Poll { k: usize },
     Advance { ms: u64 },
     Stop,
@@ -103,6 +109,9 @@ fn arb_op(kind: Kind) -> impl Strategy<Value = Op> {
         1 => Just(Op::RUnlink),
         1 => Just(Op::RClose),
         1 => Just(Op::Stop),
+        1 => Just(Op::RCloseReader),
+        1 => Just(Op::RCloseWriter),
+        2 => any::<u16>().prop_map(|c| Op::CDropReader { c }),
         28 => (1usize..6).prop_map(|k| Op::Poll { k }),
         6 => Just(Op::Poll { k: 1000 }),
         4 => (1u64..400).prop_map(|ms| Op::Advance { ms }),
@@ -273,6 +282,131 @@ fn arb_case(kind: Kind, max_ops: usize) -> impl Strategy<Value = Case> {
         })
 }
 
+/// Index selector that `pick_index` maps to consumer i of n.
+fn sel(i: usize, n: usize) -> u16 {
+    ((((2 * i + 1) as u32) << 15) / n as u32) as u16
+}
+
+/// Attach storm: a slow first consumer keeps the read task busy (it is flushing `synced` into a 1-byte
+/// channel), the attachment queue is tiny, several SYNC consumers attach at once, the lane answers their
+/// syncs, every newcomer looks into its (still empty) channel, then everything drains. Exercises the
+/// hand-over of a late joiner to the read and write sides.
+fn arb_storm_case(kind: Kind) -> impl Strategy<Value = Case> {
+    (
+        arb_params(kind),
+        1usize..3,
+        2usize..5,
+        proptest::collection::vec((any::<bool>(), arb_small_cap()), 4),
+        any::<bool>(),
+    )
+        .prop_map(move |(mut params, queue, newcomers, opts, change)| {
+            params.attachment_queue = queue;
+            params.empty_timeout_ms = 30_000;
+            let n = 1 + newcomers;
+            let mut ops = vec![
+                Op::Attach { sync: true, keep: true, in_cap: 1, out_cap: 64 },
+                Op::Poll { k: 1000 },
+                Op::RRead { n: usize::MAX },
+                Op::RPump { n: usize::MAX },
+                Op::Poll { k: 1000 },
+                // the first consumer has read `linked`: the link is up, its `synced` is stuck behind 1 byte
+                Op::CRead { c: 0, n: 1 },
+                Op::Poll { k: 1000 },
+            ];
+            if change {
+                ops.push(Op::RChange { w: if kind == Kind::Value { W::Val { id: 1, pad: 0 } } else { W::Upd { k: 0, id: 1, pad: 0 } } });
+                ops.push(Op::RPump { n: usize::MAX });
+            }
+            for i in 0..newcomers {
+                let (sync, cap) = opts[i];
+                ops.push(Op::Attach { sync: sync || i + 1 == newcomers, keep: false, in_cap: cap.max(2), out_cap: 64 });
+            }
+            ops.push(Op::Poll { k: 1000 });
+            ops.push(Op::RRead { n: usize::MAX });
+            ops.push(Op::RPump { n: usize::MAX });
+            ops.push(Op::Poll { k: 1000 });
+            for i in 1..n {
+                ops.push(Op::CRead { c: sel(i, n), n: 1 });
+            }
+            ops.push(Op::Settle);
+            Case { params, ops }
+        })
+}
+
+/// Idle stop with a last command in flight: the only consumer does not listen (so the read side votes to
+/// stop after `empty_timeout`), gets a first command through, writes its last command(s) while the remote
+/// reads nothing, detaches, and the clock passes `empty_timeout` again. Whatever was written before the
+/// consumer went away and was not superseded must still reach the lane completely.
+fn arb_idle_stop_case(kind: Kind) -> impl Strategy<Value = Case> {
+    (
+        arb_params(kind),
+        prop_oneof![Just(500u64), Just(1000)],
+        arb_small_cap(),
+        any::<bool>(),
+        any::<bool>(),
+        1usize..3,
+        (1u64..300, 1u64..300, any::<bool>()),
+        any::<bool>(),
+    )
+        .prop_map(move |(mut params, timeout, cap, sync, big, last_n, (d1, d2, twice), listen_drop_late)| {
+            params.empty_timeout_ms = timeout;
+            params.to_remote_cap = cap;
+            let mut id = 0u32;
+            let mut w = |pad: u16| {
+                id += 1;
+                match kind {
+                    Kind::Value => W::Val { id, pad },
+                    Kind::Map => W::Upd { k: (id % 3) as u8 * 2, id, pad },
+                }
+            };
+            let mut ops = vec![Op::Attach { sync, keep: false, in_cap: 64, out_cap: 16_384 }];
+            if !listen_drop_late {
+                ops.push(Op::CDropReader { c: 0 });
+            }
+            ops.push(Op::Settle);
+            if listen_drop_late {
+                ops.push(Op::CDropReader { c: 0 });
+                // the read side only notices when it next writes to the consumer
+                ops.push(Op::RChange { w: w(0) });
+                ops.push(Op::Settle);
+            }
+            ops.push(Op::Advance { ms: timeout + d1 });
+            ops.push(Op::Poll { k: 1000 });
+            ops.push(Op::Write { c: 0, w: w(0) });
+            ops.push(Op::CFlush { c: 0 });
+            ops.push(Op::Settle);
+            for i in 0..last_n {
+                let pad = if big && i + 1 == last_n { 8500 } else { 0 };
+                ops.push(Op::Write { c: 0, w: w(pad) });
+            }
+            if twice {
+                // delivered while the runtime runs, then the consumer goes away
+                ops.push(Op::CFlush { c: 0 });
+            } else {
+                // the last command(s) and the end of the consumer's stream reach the runtime together
+                ops.push(Op::CPump { c: 0, n: usize::MAX });
+            }
+            ops.push(Op::CDrop { c: 0 });
+            ops.push(Op::Poll { k: 1000 });
+            ops.push(Op::Advance { ms: timeout + d2 });
+            ops.push(Op::Poll { k: 1000 });
+            if twice {
+                ops.push(Op::Advance { ms: timeout + d2 });
+                ops.push(Op::Poll { k: 1000 });
+            }
+            Case { params, ops }
+        })
+}
+
+/// Mostly random op lists (with bursts), plus the two scenario templates.
+fn arb_any_case(kind: Kind, max_ops: usize) -> impl Strategy<Value = Case> {
+    prop_oneof![
+        16 => arb_case(kind, max_ops),
+        1 => arb_storm_case(kind),
+        1 => arb_idle_stop_case(kind),
+    ]
+}
+
 // ---------------------------------------------------------------------------------------------
 // execution
 
@@ -293,6 +427,9 @@ async fn apply_op(rt: &mut Rt, op: &Op) {
             rt.consumers[ci(*c)].read(*k);
         }
         Op::CDrop { c } if n > 0 => rt.consumers[ci(*c)].drop_now(),
+        Op::CDropReader { c } if n > 0 => rt.consumers[ci(*c)].drop_reader(),
+        Op::RCloseReader => rt.remote.close_reader(),
+        Op::RCloseWriter => rt.remote.close_writer(),
         Op::RRead { n } => {
             rt.remote.read(*n);
         }
@@ -335,6 +472,10 @@ async fn apply_op(rt: &mut Rt, op: &Op) {
 }
 
 struct CObs {
+    reader_dropped: Option<u64>,
+    last_empty_read: Option<u64>,
+    /// frames read by the fixpoint after the generated ops (before the final stop)
+    snap_frames: usize,
     sync: bool,
     attach_seq: u64,
     frames: Vec<(u64, Note)>,
@@ -351,6 +492,10 @@ struct Obs {
     received: Vec<(u64, Req)>,
     remote_decode_error: Option<String>,
     remote_closed: Option<u64>,
+    reader_closed: Option<u64>,
+    attachment_queue: usize,
+    /// bytes of an incomplete frame left when the runtime closed its output
+    truncated: Option<usize>,
     /// state of things at the fixpoint after the generated ops (before the final stop)
     snap_emitted: usize,
     snap_received: usize,
@@ -373,6 +518,7 @@ fn execute(case: &Case) -> Obs {
         let snap_emitted = rt.remote.emitted.len();
         let snap_received = rt.remote.received.len();
         let snap_running = !rt.is_done();
+        let snap_frames: Vec<usize> = rt.consumers.iter().map(|c| c.frames.len()).collect();
         let snap_stopped = rt.stopped.is_some();
         let advanced_ms = rt.advanced_ms;
         // the link closes: every consumer that is still there must be told
@@ -383,7 +529,11 @@ fn execute(case: &Case) -> Obs {
             consumers: rt
                 .consumers
                 .iter()
-                .map(|c| CObs {
+                .enumerate()
+                .map(|(i, c)| CObs {
+                    reader_dropped: c.reader_dropped,
+                    last_empty_read: c.last_empty_read,
+                    snap_frames: snap_frames.get(i).copied().unwrap_or(0),
                     sync: c.sync,
                     attach_seq: c.attach_seq,
                     frames: c.frames.clone(),
@@ -396,7 +546,14 @@ fn execute(case: &Case) -> Obs {
             emitted: rt.remote.emitted.clone(),
             received: rt.remote.received.clone(),
             remote_decode_error: rt.remote.decode_error.clone(),
-            remote_closed: rt.remote.closed,
+            remote_closed: [rt.remote.closed, rt.remote.closed_reader, rt.remote.closed_writer]
+                .iter()
+                .flatten()
+                .min()
+                .copied(),
+            reader_closed: rt.remote.closed_reader,
+            attachment_queue: case.params.attachment_queue.max(1),
+            truncated: rt.remote.truncated_input(),
             snap_emitted,
             snap_received,
             snap_running,
@@ -839,7 +996,7 @@ fn check(case: &Case) -> Verdict {
                 Note::Unlinked => unlinked_at = Some(i),
             }
         }
-        let alive = c.dropped.is_none();
+        let alive = c.dropped.is_none() && c.reader_dropped.is_none();
         // ---- unlinked when the link closes (the harness stopped the runtime at the end of every case)
         if alive && linked_at.is_some() && unlinked_at.is_none() {
             v.fail(
@@ -899,6 +1056,38 @@ fn check(case: &Case) -> Verdict {
                         // one that entered the runtime after the consumer had read `linked` certainly found
                         // the consumer on the read side
                         let ignored = answers.iter().any(|e| e.pumped.unwrap() > linked_seq);
+                        // With the hand-over in /repo (read side first, then write side) the write side can
+                        // only send a sync for a consumer that is already in the read side's attachment queue
+                        // (capacity Q) or taken from it. So when the last sync frame was written at most Q
+                        // consumers up to and including this one (attach order = queue order) were still
+                        // untouched by the read side. A consumer that attached after the link was up is
+                        // written `linked` the moment it is taken, so "looked into its channel at or after the
+                        // lane read that sync request, found nothing, and no byte had ever arrived" certifies
+                        // "not taken yet".
+                        let last_sync_read = obs.received[..obs.snap_received]
+                            .iter()
+                            .filter(|(_, r)| *r == Req::Sync)
+                            .map(|(s, _)| *s)
+                            .max();
+                        let first_linked_read = obs
+                            .consumers
+                            .iter()
+                            .filter_map(|o| o.frames.iter().find(|(_, f)| *f == Note::Linked).map(|(s, _)| *s))
+                            .min();
+                        let beyond_queue = match (last_sync_read, first_linked_read) {
+                            (Some(rs), Some(fl)) if rs > c.attach_seq => {
+                                let untouched = |o: &CObs| {
+                                    o.attach_seq > fl && o.attach_seq <= c.attach_seq && o.last_empty_read.map_or(false, |t| t >= rs)
+                                };
+                                untouched(c) && obs.consumers.iter().filter(|o| untouched(o)).count() > obs.attachment_queue
+                            }
+                            _ => false,
+                        };
+                        // (evidence only: this pattern also occurs, rarely, on the unchanged tree, so it cannot
+                        // serve as a signature of its own)
+                        if beyond_queue && !answers.is_empty() && !ignored {
+                            v.class("never-synced-with-more-untouched-consumers-than-queue");
+                        }
                         let (cell, why) = if answers.is_empty() {
                             ("no-sync-after-attach", "; no sync request reached the lane after it attached")
                         } else if ignored {
@@ -940,6 +1129,59 @@ fn check(case: &Case) -> Verdict {
         }
     }
 
+    // ---- the outgoing half of the connection failed: once the runtime has had something to write (two
+    // commands: the failed flush of the first is noticed when the next arrives) the consumers must be told
+    if let Some(t) = obs.reader_closed {
+        // a command c1 delivered after the failure by a consumer that had read `linked`, then the runtime
+        // polled until idle (c1 is in the write buffer, its flush has failed), then another command c2
+        // delivered: the write task sees the failed flush when c2 arrives and stops
+        let mut witnessed = false;
+        for c in obs.consumers.iter().filter(|c| c.dropped.is_none()) {
+            let Some(ls) = c.frames.iter().find(|(_, f)| *f == Note::Linked).map(|(s, _)| *s) else { continue };
+            for s1 in c.sent.iter().filter_map(|s| s.written).filter(|w| *w > t && *w > ls) {
+                let Some(idle) = obs.idle_at.iter().copied().find(|i| *i > s1) else { continue };
+                let later = obs
+                    .consumers
+                    .iter()
+                    .filter(|o| o.dropped.is_none())
+                    .any(|o| o.sent.iter().filter_map(|s| s.written).any(|w| w > idle));
+                if later {
+                    witnessed = true;
+                }
+            }
+        }
+        if witnessed {
+            for (ci, c) in obs.consumers.iter().enumerate() {
+                let alive = c.dropped.is_none() && c.reader_dropped.is_none();
+                let upto = &c.frames[..c.snap_frames.min(c.frames.len())];
+                if alive && upto.iter().any(|(_, f)| *f == Note::Linked) && !upto.iter().any(|(_, f)| *f == Note::Unlinked) {
+                    v.fail(
+                        "unlinked-missing/output-half-failed",
+                        format!(
+                            "the remote stopped reading the runtime's output at seq {} (outgoing half failed); a command was delivered afterwards, the runtime ran until idle, another command was delivered and everything drained, yet consumer {} was not told unlinked (runtime still running: {}); frames {:?}",
+                            t, ci, obs.snap_running, upto
+                        ),
+                    );
+                }
+            }
+            v.class("outgoing-half-failed-then-two-commands");
+        }
+    }
+    // the runtime stopped on its own idle vote: it may only do so with everything flushed
+    let idle_stop = !obs.snap_running && undisturbed && unlinked_idx.is_none();
+    if idle_stop {
+        if let Some(n) = obs.truncated {
+            v.fail(
+                "wire-truncated-frame/idle-stop",
+                format!(
+                    "the runtime stopped because nobody was attached for empty_timeout and closed its output in the middle of a frame ({} bytes of an incomplete frame; the lane had received {:?})",
+                    n,
+                    obs.received.iter().map(|(_, r)| r).collect::<Vec<_>>().len()
+                ),
+            );
+        }
+    }
+
     // ---- commands
     let cmds: Vec<&Ev> = obs.received[..obs.snap_received]
         .iter()
@@ -956,7 +1198,7 @@ fn check(case: &Case) -> Verdict {
         .collect();
     let total_sent: usize = sent.iter().map(|s| s.len()).sum();
     let writers: Vec<usize> = (0..sent.len()).filter(|i| !sent[*i].is_empty()).collect();
-    let quiescent = live_link || (undisturbed && obs.snap_running);
+    let mut quiescent = live_link || (undisturbed && obs.snap_running);
     let mut coalesced = false;
 
     // unique bodies -> (consumer, index)
@@ -1059,6 +1301,21 @@ fn check(case: &Case) -> Verdict {
         }
     }
 
+    // After an idle stop the laws still hold for consumers that were certainly registered on the write
+    // side (the lane received something only they can have sent): everything they wrote before they
+    // went away was read by the write task, and it only votes to stop when idle and flushed. A consumer
+    // that attached while the stop was being decided may legitimately lose everything.
+    if idle_stop && !writers.is_empty() {
+        let certain = |w: &usize| cmds.iter().any(|e| match e {
+            Ev::Val(b) if !b.is_empty() => origin.get(b).map_or(false, |(ci, _)| ci == w),
+            Ev::Upd(_, b) => origin.get(b).map_or(false, |(ci, _)| ci == w),
+            _ => false,
+        });
+        if writers.iter().all(certain) {
+            quiescent = true;
+            v.class("idle-stop-command-laws");
+        }
+    }
     if quiescent {
         if cmds.len() < total_sent {
             coalesced = true;
@@ -1181,6 +1438,8 @@ fn check(case: &Case) -> Verdict {
     v.class_if(unlinked_idx.is_some(), "remote-unlinked");
     v.class_if(clean_unlinked, "clean-unlinked");
     v.class_if(obs.remote_closed.is_some(), "remote-closed");
+    v.class_if(obs.reader_closed.is_some(), "outgoing-half-failed");
+    v.class_if(obs.consumers.iter().any(|c| c.reader_dropped.is_some()), "consumer-stopped-listening");
     v.class_if(obs.snap_stopped, "stopped-by-op");
     v.class_if(live_link, "link-up-at-end");
     v.class_if(!obs.snap_running && undisturbed && unlinked_idx.is_none(), "timeout-stop");
@@ -1508,8 +1767,8 @@ fn main() {
     let n_value = ctx.pick(250_000, 8_000_000);
     let n_map = ctx.pick(250_000, 8_000_000);
     let max_ops = ctx.pick(70, 160);
-    ctx.prop("value-session", n_value, move || arb_case(Kind::Value, max_ops), check);
-    ctx.prop("map-session", n_map, move || arb_case(Kind::Map, max_ops), check);
+    ctx.prop("value-session", n_value, move || arb_any_case(Kind::Value, max_ops), check);
+    ctx.prop("map-session", n_map, move || arb_any_case(Kind::Map, max_ops), check);
     // the per-key queue behind the map downlink's (and the map uplink's) back-pressure relief, on its own
     let depth = ctx.pick(6, 8);
     ctx.enumerate("map-queue-small-scope", move |w, ws| enumerate_queue(depth, w, ws), check_queue);
